@@ -565,6 +565,105 @@ def oracle_extreme_fraction(nrng, problems, stats, k):
         stats["extreme_fraction_checks"] += 1
 
 
+def _models(M, thr):
+    return [("hurdle", M.gen_PrecipitationHurdleModel(cdf_randomization=True)),
+            ("hurdle_norand", M.gen_PrecipitationHurdleModel(cdf_randomization=False)),
+            ("ignore_zeros", M.gen_PrecipitationIgnoreZeroValuesModel()),
+            ("censored", M.gen_PrecipitationGammaLeftCensoredModel(censoring_threshold=thr, censor_in_ppf=True)),
+            ("censored_nocensor", M.gen_PrecipitationGammaLeftCensoredModel(censoring_threshold=thr, censor_in_ppf=False))]
+
+
+def _deterministic(kind, x, thr):
+    """positions whose cdf value does not depend on a random draw"""
+    if kind == "hurdle":
+        return x != 0
+    if kind.startswith("censored"):
+        return x >= thr
+    return np.ones(x.shape, dtype=bool)
+
+
+def _eq(a, b):
+    a, b = np.asarray(a, dtype=float), np.asarray(b, dtype=float)
+    return a.shape == b.shape and np.array_equal(a, b, equal_nan=True)
+
+
+def oracle_vectors(nrng, problems, stats, k, large=False):
+    """cdf / ppf are element-wise maps given the fit: evaluated on a vector that differs from the fitted sample — only the
+    wet values, only zeros, a single value, a permutation, with repeated values, consecutive chunks — they must give,
+    element by element, what the call on the whole vector gives (positions that use a random draw excepted: those are
+    checked for their range).  `large`: samples of more than 20000 values (size-gated shortcuts), where also
+    p0 == #zeros/n and the round trip are demanded."""
+    from ibicus.utils import _math_utils as M
+
+    n = int(nrng.choice([20001, 25000, 60 * 365])) if large else int(nrng.integers(20, 120))
+    data, shape, scale = gen_gamma_sample(nrng, n)
+    thr = float(nrng.choice([0.1, 0.05, 0.5])) * (1.0 if scale >= 0.05 else scale)
+    if not large and nrng.uniform() < 0.5:  # finite recording resolution: ties among the wet values
+        data = np.where(data > 0, np.ceil(data / (scale / 4)) * (scale / 4), 0.0)
+    info = {"n": n, "n_dry": int((data == 0).sum()), "gamma_shape": shape, "gamma_scale": scale, "threshold": thr, "numpy_seed_of_case": k,
+            "generator": "vectors_large" if large else "vectors"}
+    if not large:
+        info["data"] = data.tolist()
+    for kind, model in _models(M, thr):
+        sig = {"model": kind, "sample": "large" if large else "small"}
+
+        def bad(desc, law, **extra):
+            problems.append((desc, {**info, **extra}, {**sig, "law": law}))
+
+        np.random.seed(k)
+        if kind.startswith("censored"):
+            fit = (shape, 0, scale)
+        else:
+            fit = quiet(model.fit, data)
+        if kind.startswith("hurdle") and abs(fit[0] - (data == 0).sum() / n) > 1e-15:
+            bad(f"{kind}: fit on {n} values gives p0 = {fit[0]!r}, the observed fraction of zeros is {int((data == 0).sum())}/{n} = {(data == 0).sum() / n!r}", "p0")
+        full = np.asarray(quiet(model.cdf, data, *fit), dtype=float)
+        det = _deterministic(kind, data, thr)
+        back = np.asarray(quiet(model.ppf, full, *fit), dtype=float)
+        # round trip on the whole vector
+        gf = fit[1] if kind.startswith("hurdle") else fit
+        F = scipy.stats.gamma.cdf(data, *gf)
+        wetm = (data > (thr * (1 + 1e-9) if kind.startswith("censored") else 0)) & (F >= 1e-4) & (F <= 1 - 1e-4)
+        if np.any(np.abs(back[wetm] - data[wetm]) > 1e-9 * data[wetm]):
+            i = np.where(wetm)[0][np.argmax(np.abs(back[wetm] - data[wetm]) / data[wetm])]
+            bad(f"{kind}: ppf(cdf(x)) != x on a vector of {n} values: x = {data[i]!r} comes back as {back[i]!r}", "wet_roundtrip", index=int(i))
+        if kind != "censored_nocensor" and np.any(back[data == 0] != 0):
+            bad(f"{kind}: a dry value does not stay dry on a vector of {n} values", "dry")
+        # sub-vectors: (name, index array)
+        idx_all = np.arange(n)
+        wet_idx, dry_idx = idx_all[data > 0], idx_all[data == 0]
+        subs = [("only the wet values", wet_idx), ("only zeros", dry_idx), ("a single wet value", wet_idx[:1]), ("the smallest wet value alone", wet_idx[np.argsort(data[wet_idx])[:1]]),
+                ("a single zero", dry_idx[:1]), ("a permutation", nrng.permutation(n)), ("sorted", np.argsort(data, kind="stable")),
+                ("repeated values", np.concatenate([wet_idx[:5], wet_idx[:5], dry_idx[:2], wet_idx[:3]])),
+                ("a run of wet values without the smallest", wet_idx[np.argsort(data[wet_idx])[1:]][:50])]
+        if large:
+            cuts = [0, 7000, 14000, n]
+            subs += [(f"chunk {a}:{b}", idx_all[a:b]) for a, b in zip(cuts[:-1], cuts[1:])]
+        for name, idx in subs:
+            if idx.size == 0:
+                continue
+            xs = data[idx]
+            np.random.seed(k + 1)
+            sub = np.asarray(quiet(model.cdf, xs, *fit), dtype=float)
+            d = det[idx]
+            stats["subvector_checks"] += 1
+            if sub.shape != xs.shape or not _eq(sub[d], full[idx][d]):
+                j = int(np.argmax(~((sub == full[idx]) | ~d))) if sub.shape == xs.shape else 0
+                bad(f"{kind}: cdf evaluated on {name} ({idx.size} values) gives {sub.ravel()[j]!r} for x = {xs[j]!r}; evaluated within the whole vector the same value gets {full[idx][j]!r}",
+                    "cdf_elementwise", subvector=name, x=float(xs[j]))
+                continue
+            r = sub[~d]  # positions with a random draw: only their range is determined
+            if r.size and kind == "hurdle" and not (np.all(r >= 0) and np.all(r <= fit[0])):
+                bad(f"{kind}: randomised cdf value of a dry day outside [0, p0] on {name}", "randomisation_range", subvector=name)
+            # ppf on the corresponding quantiles
+            qs = full[idx]
+            subp = np.asarray(quiet(model.ppf, qs, *fit), dtype=float)
+            if not _eq(subp, back[idx]):
+                j = int(np.argmax(subp != back[idx])) if subp.shape == back[idx].shape else 0
+                bad(f"{kind}: ppf evaluated on {name} gives {subp.ravel()[j]!r} for q = {qs[j]!r}; within the whole vector {back[idx][j]!r}", "ppf_elementwise", subvector=name, q=float(qs[j]))
+    stats["vector_cases_large" if large else "vector_cases"] += 1
+
+
 def oracle_fit_kwds(nrng, problems, stats, k):
     """every model that takes fit_kwds, with scipy's gamma and fit_kwds in {None (free location), floc = 0, floc = c > 0
     below the data minimum}; wet amounts >= 1 (a wet-day reporting threshold), so that a location matters"""
@@ -619,7 +718,8 @@ def run(tier, res, force_search=False):
     res.rule = ("correspondence cases = (zero-inflated dyadic sample of size 2..14 with a dry fraction in (0,1), in mm/day or flux units (x 2^-20, 2^-34), float64 or float32, "
                 "model type, options, family loc/scale, threshold) from one PRNG (VERIF_SEED); oracle cases = zero-inflated gamma samples (shape 0.4..5, scale 1e-9..40 "
                 "(mm/day and kg m-2 s-1), dry fraction 0.05..0.95, n 20..120), each also as float32; plus long series (n 2000..10950) with a dry fraction < 0.1 % or > 99.9 %, and samples with wet amounts >= 1 "
-                "run with fit_kwds None / floc=0 / floc=c>0; "
+                "run with fit_kwds None / floc=0 / floc=c>0; plus cdf/ppf on sub-vectors (only wet, only zeros, single values, permutations, repeats, chunks) "
+                "of small samples and of samples with 20001 / 21900 / 25000 values, for all five model configurations; "
                 "distinct = distinct (model, n, #dry, options) classes; every case is non-trivial (both dry and wet values)")
     res.trusted = C.BASE_TRUSTED + [
         "the amounts distribution is a parameter: theorems hold for every family satisfying Lemmas.Precip.AmountLaws (proved for the rational test double, assumed for scipy's gamma and other rv_continuous families)",
@@ -653,8 +753,15 @@ def run(tier, res, force_search=False):
         oracle(np.random.default_rng(seed_k), problems, stats, seed_k)
         res.count(("oracle", k % 7), True)
     n_ext = (6 if tier == "quick" else 40) * (3 if (force_search or not lean_ok or corr.mismatches) else 1)
+    import functools
+
+    large = functools.partial(oracle_vectors, large=True)
+    large.__name__ = "oracle_vectors_large"
     for k in range(n_ext):
-        for fn, off in ((oracle_extreme_fraction, 7000000), (oracle_fit_kwds, 9000000)):
+        fns = [(oracle_extreme_fraction, 7000000), (oracle_fit_kwds, 9000000), (oracle_vectors, 11000000), (oracle_vectors, 12000000)]
+        if k < (2 if tier == "quick" else 8):
+            fns.append((large, 13000000))
+        for fn, off in fns:
             seed_k = C.seed() * 100003 + off + k
             try:
                 fn(np.random.default_rng(seed_k), problems, stats, seed_k)
@@ -686,7 +793,11 @@ def replay(data):
         return 1
     problems, stats = [], collections.Counter()
     k = int(fi["numpy_seed_of_case"])
-    gen = {"extreme_fraction": oracle_extreme_fraction, "oracle_extreme_fraction": oracle_extreme_fraction,
+    import functools
+
+    gen = {"vectors": oracle_vectors, "oracle_vectors": oracle_vectors, "vectors_large": functools.partial(oracle_vectors, large=True),
+           "oracle_vectors_large": functools.partial(oracle_vectors, large=True),
+           "extreme_fraction": oracle_extreme_fraction, "oracle_extreme_fraction": oracle_extreme_fraction,
            "fit_kwds": oracle_fit_kwds, "oracle_fit_kwds": oracle_fit_kwds}.get(fi.get("generator"), oracle)
     gen(np.random.default_rng(k), problems, stats, k)
     want = data.get("signature", {})
